@@ -45,6 +45,7 @@ package prefix
 
 // C02/C03: the prefix transport matches a connection only to a valid registration of the connection's own phantom
 // that was registered for the PREFIX transport; on every non-match nothing is consumed from the buffered data.
+//@ define lacksBytes(minLen int, offset int, maxLen int, n int) bool = n < minLen || (n < offset + minTagLength && n < maxLen)
 //@ func (t Transport) tryFindReg(data *bytes.Buffer, originalDst net.IP, regManager transports.RegManager) (transports.Registration, error)
 //@   requires data != nil && regManager != nil && t.TagObfuscator != nil
 //@   ensures @C02: result1 == nil ==> (exists s string :: s in validRegs(regManager, originalDst) && result0 == validRegs(regManager, originalDst)[s]) && regTransport(result0) == 4
@@ -59,10 +60,15 @@ package prefix
 // C03: the only answers are the four sentinel values - in particular a failing tag reveal or any other internal
 // error is never passed up (the handler would stop reading and sleep, which a prober can observe)
 //@   ensures @C03: result1 != nil ==> result1 == transports.ErrTryAgain || result1 == transports.ErrNotTransport || result1 == ErrIncorrectPrefix || result1 == ErrIncorrectTransport
+// C04 (recognition, prefix side): the client is put off for more bytes only while some supported prefix really lacks
+// bytes - fewer than its minimum length, or not yet its offset plus the 64-byte tag and below its maximum length. A
+// first flight that is complete for its prefix is therefore never answered with try-again.
+//@   ensures @C04: result1 == transports.ErrTryAgain && old(len(bufStr(data))) > 0 ==> (exists k PrefixID :: k in t.SupportedPrefixes && lacksBytes(t.SupportedPrefixes[k].MinLen, t.SupportedPrefixes[k].Offset, t.SupportedPrefixes[k].MaxLen, old(len(bufStr(data)))))
 // C03: the connection is not touched (no write, close, read, deadline change): the frame is the buffer only
 //@   assigns bufStr(data), obj(data)
 //@ loop 1:
 //@   invariant data != nil && regManager != nil && t.TagObfuscator != nil && bufStr(data) == old(bufStr(data)) && (err == transports.ErrNotTransport || err == transports.ErrTryAgain)
+//@   invariant err == transports.ErrTryAgain ==> (exists k PrefixID :: k in t.SupportedPrefixes && lacksBytes(t.SupportedPrefixes[k].MinLen, t.SupportedPrefixes[k].Offset, t.SupportedPrefixes[k].MaxLen, len(bufStr(data))))
 //@   modifies bufStr(data), obj(data)
 
 //@ func (t Transport) WrapConnection(data *bytes.Buffer, c net.Conn, originalDst net.IP, regManager transports.RegManager) (transports.Registration, net.Conn, error)
